@@ -889,6 +889,104 @@ func runWarningRules(c *Ctx) {
 		}
 	}
 	c.Check(incField != "" && len(writes[incField]) == 1, "A9", "(*csv.File).NextRow", "row number counts accepted records from 1", "-", "the row counter is incremented by exactly one, only on the path that hands out a row", fmt.Sprintf("the row counter is written %d time(s) (%v) or not as counter+1 on the success path: warnings no longer carry the 1-based record number", len(writes[incField]), writes))
+	// RowContent: the header stands in for the row exactly while no record has been handed out (counter == 0); from the
+	// first record on it is the record's cells. The tests on the counter are evaluated for 0, 1, 2, 3.
+	if rc := c.anchor("csv:(*File).RowContent"); rc != nil && incField != "" {
+		tb, err := extractTable(rc)
+		okRC, why := err == nil, ""
+		if err != nil {
+			why = err.Error()
+		}
+		nb := newBinder(c)
+		// the header accessor and the field it hands out
+		hc := c.anchor("csv:(*File).HeaderContent")
+		hdrField := ""
+		if hc != nil {
+			for _, hb := range hc.Blocks {
+				for _, in := range hb.Instrs {
+					if fa, ok := in.(*ssa.FieldAddr); ok && typeName(fa.X.Type()) == "csv.File" {
+						hdrField = fieldName(fa.X.Type(), fa.Field)
+					}
+				}
+			}
+		}
+		if err == nil {
+			counterTruth := func(a atom, cv int64) (bool, bool) { // (applies to the counter, truth at cv)
+				bo, ok := a.v.(*ssa.BinOp)
+				if !ok {
+					return false, false
+				}
+				k, isK := constInt(bo.Y)
+				if !isK || !strings.HasSuffix(canon(bo.X), "."+incField+")") {
+					return false, false
+				}
+				t := false
+				switch bo.Op {
+				case token.EQL:
+					t = cv == k
+				case token.NEQ:
+					t = cv != k
+				case token.LSS:
+					t = cv < k
+				case token.LEQ:
+					t = cv <= k
+				case token.GTR:
+					t = cv > k
+				case token.GEQ:
+					t = cv >= k
+				default:
+					return false, false
+				}
+				// a.neg is relative to the printed (positive) form of the atom; for opaque atoms the value itself
+				if a.opaque {
+					if a.neg {
+						t = !t
+					}
+					return true, t
+				}
+				// decomposed equality: subj == konst, neg flips
+				t2 := fmt.Sprint(cv) == a.konst
+				if a.neg {
+					t2 = !t2
+				}
+				return true, t2
+			}
+			nHdr := 0
+			for _, r := range tb.rows {
+				if r.panics || len(r.vals) != 1 {
+					continue
+				}
+				isHdr := false
+				if call, isCall := r.vals[0].(*ssa.Call); isCall && hc != nil && staticCallee(call) == hc {
+					isHdr = true
+				}
+				if hdrField != "" && strings.Contains(nb.bind(r.vals[0]), "."+hdrField) {
+					isHdr = true
+				}
+				if isHdr {
+					nHdr++
+				}
+				for cv := int64(0); cv <= 3; cv++ {
+					sat := true
+					for _, a := range r.conds {
+						if applies, t := counterTruth(a, cv); applies && !t {
+							sat = false
+						}
+					}
+					if isHdr && sat != (cv == 0) {
+						okRC, why = false, fmt.Sprintf("the header is returned as the row's content when %d record(s) have been handed out", cv)
+					}
+					if !isHdr && cv == 0 && sat {
+						okRC, why = false, "before the first record something other than the header is returned"
+					}
+				}
+			}
+			if nHdr == 0 {
+				okRC, why = false, "no path returns the header"
+			}
+		}
+		c.Check(okRC, "A9", shortName(rc), "row content is the header only before the first record", p.pos(rc.Pos()), "the header stands in exactly while the record counter is 0", "RowContent: "+why+": a warning about the first data row carries the header cells instead of the row's")
+	}
 	// every record the reader hands over without error is counted: no path from a successful Read to the next Read (a
 	// skip loop) or to a return avoids the increment
 	if nextRow != nil && incField != "" {
